@@ -4,7 +4,7 @@ From BV Require Import Base.Prelude Model.Block Model.ForkDB Model.Forkable Mode
   Model.Burst Model.Hub Model.CursorResolver Model.Joining
   Spec.Consumer Spec.Universe Check.Burst_Check Check.C07_Check Spec.C06_Spec Spec.C07_Spec Spec.C09_Spec Spec.C13_Spec
   Spec.C07_Compose_Spec Spec.C07_Shapes_Spec Spec.C07_More_Spec Spec.C13_More_Spec
-  Proofs.C07_Shapes Proofs.C13_More Proofs.C07_FiltersTarget Proofs.C07_FiltersCursor Proofs.C07_TargetRefuted Properties.C07_Compose Properties.C07_More.
+  Proofs.C07_Shapes Proofs.C13_More Proofs.C07_FiltersTarget Proofs.C07_FiltersCursor Proofs.C07_FullRefuted Proofs.C07_TargetRefuted Properties.C07_Compose Properties.C07_More.
 Local Open Scope N_scope.
 
 (* every filter, stop block, mode, world, schedule: the three shapes of the raw sequence of a run and what the handler
@@ -62,3 +62,13 @@ Qed.
 Theorem c13_stop_target_scope_needed : C13_stop_target_scope_needed.
 Proof. exact c13_stop_target_scope_needed_proof. Qed.
 Print Assumptions c13_stop_target_scope_needed.
+
+(* the file source's stop marker needs the source's FIRST bundle (model fidelity W3-C13-M1): resumed from a cursor above the stop
+   block (cursor LIB 16, stop 9) with the merged files ending at 10 (bundle 10), the file source polls for the bundle of 16:
+   nothing is delivered and the stream waits; once that bundle exists (merged files up to 20) it ends with stop-block-reached *)
+Example c13_first_bundle_example :
+  let cu := mkCursor SNew (mkR 18 18) (mkR 18 18) (mkR 16 16) in
+  let c := mkJ 2 5 10 1 0 (Some cu) 9 0 0 in
+  stream_run c na_w [] 10 (filter (fun b => bnum b <? 10) na_canon) [] = ([], JNil) /\
+  stream_run c na_w [] 20 (filter (fun b => bnum b <? 20) na_canon) [] = ([], JStop).
+Proof. split; vm_compute; reflexivity. Qed.
